@@ -26,6 +26,10 @@ CHECKS = {
    "An independent ledger (fed only by the observed effect of position operations, never by the claim path) bounds every claim's payment by the user's weight share of the emissions of the claimed epochs; refusals as 'farm exhausted' are checked against affordability; claimed <= rate x elapsed epochs after every message.", "DESIGN.md §4 C06"),
  "C07": lvl("exploration", "differential monitors: Rewards query vs forked Claim; ledger share equality; one frozen future replayed under three claim schedules",
    "The Rewards query on the forked pre-state must equal each claim's bank delta; each payment must equal the sum of floored weight shares per farm-epoch; a frozen future replayed from one snapshot under three claim schedules must pay the same totals and leave other users' pending rewards identical.", "DESIGN.md §4 C07"),
+ "C08": lvl("exploration", "runtime monitors on every position message (bank-event slice, raw position view) + forked all-senders x boundary-second probes",
+   "On real traffic every changed position must belong to the sender, partial closes must conserve the owner's recorded LP and normal withdrawals must pay exactly the recorded amount once; forked probes attempt every action on an existing position from every account and withdraw at unlock-1s/unlock/unlock+1s.", "DESIGN.md §4 C08"),
+ "C09": lvl("exploration", "offline checker over the bank-event slice of every emergency withdrawal + time-forked series, against an exact rational penalty oracle",
+   "Every emergency exit (workload and forked at 6+ times per position) is read off the bank-event slice: bounded by 90%, equal to the documented formula within a derived rounding slack, non-increasing in time after closing, zero once unlocked, recipients and shares as stated, never more than the recorded amount paid out.", "DESIGN.md §4 C09"),
  "C10": lvl("exploration", "runtime invariant monitor over all weight snapshots (raw storage) + exact rational curve oracle + forked sweeps",
    "After every message total weight >= sum of users' weights for the running and the pending epoch (equal while no pieces), no weight without open position; every fresh position weight is compared with the exact Lagrange curve, its bounds and pairwise monotonicity.", "DESIGN.md §4 C10"),
  "C11": lvl("exploration", "offline checker over the bank-event slice of every farm action + forked exact-payment probes + quiescent limit invariant",
@@ -36,6 +40,8 @@ CHECKS = {
    "Each protection's decision on real traffic is compared with an independently evaluated predicate outside a rounding band; forked probes test exact-proportion deposits and monotonicity in the tolerance; every refused trade must leave the chain state identical.", "DESIGN.md §4 C13"),
  "C14": lvl("fault_enumeration", "forked equivalence run (single-asset deposit vs manual two-step) + failure injected at each internal chain call + buffer-key lookup after every message",
    "Every single-asset deposit is replayed from the same state as swap-half-then-deposit and all effects compared; for sampled accepted ones a failure is injected at each of its internal chain calls (contract entries, replies, bank, token factory) and the state must be bit-identical; the temporary buffer key is looked up after every message.", "DESIGN.md §4 C14"),
+ "C15": lvl("exploration", "complete role x message x ownership-state x funds matrix, every cell executed on a fork and compared with the table derived from the statement (exhaustive)",
+   "All 2660 cells of the privileged-action matrix are executed on forks of one prepared state; decisions must equal the statement's table, rejected cells must leave the chain state identical and accepted cells may only change the storage the message names.", "DESIGN.md §4 C15"),
  "C16": lvl("exploration", "independent well-formedness/payment predicate vs every creation attempt; forked payment matrix; first-seen immutability invariant after every message",
    "Every creation attempt is compared with an independent predicate; a forked matrix of token-factory fee configurations x fund variants checks accept <=> exact and the bank slice; identifiers/LP denoms stay distinct and creation-time parameters unchanged through all histories.", "DESIGN.md §4 C16"),
  "C17": lvl("exploration", "differential monitor: all 8 switch combinations x every operation path vs the untoggled reference fork",
@@ -44,6 +50,8 @@ CHECKS = {
    "Many epoch-manager instances with random configurations are queried at genesis-1/genesis/boundaries +-1/near the u64 limits and every answer compared with u128 arithmetic; overflowing cases must fail, never wrap; configuration validation incl. non-owner.", "DESIGN.md §4 C18"),
  "C19": lvl("exploration", "reference-model monitor: exact big-integer Curve solution vs the production quote and mint-D functions over a very wide input range",
    "compute_swap and compute_d_with_pool_info are called at their public boundary on millions of generated pool states and compared with the exact solution of the invariant (band from the statement); outputs never exceed the reserve; failures are counted per cause.", "DESIGN.md §4 C19"),
+ "C20": lvl("fault_enumeration", "state-equality monitor after every rejected message + failure injected at each successive internal chain call of sampled accepted messages of every kind",
+   "After every rejected/aborted message of both workloads the whole chain storage must be bit-identical; for sampled accepted messages of every kind each internal chain call (contract entry, reply, bank, token factory) is failed in turn on a fork: the message must be rejected with identical state, except the tolerated blocked refund of a closing farm, whose fork must equal the unblocked run modulo the refund.", "DESIGN.md §4 C20"),
 }
 
 NOT_YET = "monitor designed in DESIGN.md §4 but not yet built in this commit; not claimed until its check exists and is silent on the unchanged tree"
